@@ -75,6 +75,9 @@ func jobsFor(prop, tier string) []Job {
 		typedJobs("lists", add)
 		xlJobs(q, []string{"arraylist", "singlylinkedlist", "doublylinkedlist"}, add)
 		treadmillJobs([]string{"arraylist", "singlylinkedlist", "doublylinkedlist"}, add)
+		for _, c := range []string{"arraylist", "singlylinkedlist", "doublylinkedlist"} {
+			add("bulklarge", "bulklarge."+c, 20, map[string]string{"c": c}, nil)
+		}
 	case "C04":
 		u := pick(4, 5)
 		add("set", fmt.Sprintf("hashset.u%d", u), u, map[string]string{"c": "hashset"}, map[string]int{"u": u})
